@@ -485,6 +485,13 @@ func readDnsMsgFromBufio(reader *bufio.Reader, timeout time.Duration, conn net.C
 		return nil, 0, err
 	}
 
+	// Only queries belong to the DNS fast path. Reject anything else before
+	// consuming it, so that the caller can still hand the untouched stream to
+	// the normal TCP relay.
+	if msg.Response {
+		return nil, 0, fmt.Errorf("DNS message is a response, not a query")
+	}
+
 	// Consume the data by discarding it
 	_, err = reader.Discard(int(2 + length))
 	if err != nil {
@@ -623,11 +630,8 @@ func (c *ControlPlane) handleTCPDnsFastPath(ctx context.Context, lConn net.Conn,
 		return false, nil
 	}
 
-	// Verify it's a query, not a response
-	if msg.Response {
-		// Received a response instead of a query - not DNS client traffic
-		return false, nil
-	}
+	// readDnsMsgFromBufio only consumes queries; from here on the first frame is
+	// gone from the stream and the connection must not fall back to the relay.
 	// This is DNS-over-TCP traffic - handle all queries on this connection
 	if routingResult.Mark == 0 {
 		routingResult.Mark = c.soMarkFromDae
@@ -653,7 +657,7 @@ func (c *ControlPlane) handleTCPDnsFastPath(ctx context.Context, lConn net.Conn,
 		// Handle the query
 		dnsController := c.ActiveDnsController()
 		if dnsController == nil {
-			return false, fmt.Errorf("dns controller is not available")
+			return true, fmt.Errorf("dns controller is not available")
 		}
 		err := dnsController.HandleWithResponseWriter_(c.dnsRequestContext(ctx, dnsController), msg, req, writer)
 		if err != nil {
